@@ -191,8 +191,80 @@ func c12empty(s string) {
 	}
 }
 
+// step level: a generated command-step document (tokens in every string position) loaded through
+// CommandStep.UnmarshalJSON, a permutation that is valid, an adjustment, skipped or invalid
+func c12stepCases(rng *sx.Rng, n int) {
+	tok := []string{"{{matrix}}", "{{ matrix.os }}", "{{matrix.arch}}", "{{matrix.nope}}", "{{matrix.}}", "plain", "{{matrix.os}}-{{matrix.arch}}", ""}
+	for i := 0; i < n; i++ {
+		g := newDocgen(rng, false)
+		g.strPool = tok
+		g.decorate = func(m string) string { return m + sx.Pick(rng, tok) }
+		d := g.signableStep()
+		d.set("key", dStr("k{{matrix}}"))
+		d.set("label", dStr(sx.Pick(rng, tok)))
+		d.set("unknown", dMap(dkv{"n{{matrix.os}}", dList(dStr(sx.Pick(rng, tok)), dInt(1))}))
+		d.set("cache", dStr("c{{matrix}}"))
+		var perm map[string]string
+		switch rng.Intn(3) {
+		case 0: // anonymous dimension
+			d.set("matrix", dMap(dkv{"setup", dList(dStr("a"), dStr("{{matrix}}"))}, dkv{"adjustments", dList(dMap(dkv{"with", dStr("extra")}, dkv{"skip", sx.Pick(rng, []*dv{dBool(false), dBool(true), dStr("why")})}))}))
+			perm = map[string]string{"": sx.Pick(rng, []string{"a", "{{matrix}}", "extra", "zzz"})}
+		case 1:
+			d.set("matrix", dMap(dkv{"setup", dMap(dkv{"os", dList(dStr("linux"), dStr("mac"))}, dkv{"arch", dList(dStr("x"), dStr("y"))})},
+				dkv{"adjustments", dList(dMap(dkv{"with", dMap(dkv{"os", dStr("win")}, dkv{"arch", dStr("x")})}))}))
+			perm = map[string]string{"os": sx.Pick(rng, []string{"linux", "mac", "win"}), "arch": sx.Pick(rng, []string{"x", "y"})}
+			if rng.Chance(15) {
+				delete(perm, "arch")
+			}
+		default:
+			d.del("matrix")
+			perm = map[string]string{}
+			if rng.Chance(30) {
+				perm["os"] = "linux"
+			}
+		}
+		cs, text, err := stepFromDoc(d)
+		if err != nil {
+			continue
+		}
+		ds, derr := docSexp(text)
+		if derr != nil {
+			continue
+		}
+		pl := sx.List{}
+		for _, k := range sortedKeys(perm) {
+			pl = append(pl, sx.L(sx.A(k), sx.A(perm[k])))
+		}
+		c := sx.L(ds, pl)
+		before, _ := json.Marshal(cs)
+		ierr := cs.InterpolateMatrixPermutation(pipeline.MatrixPermutation(perm))
+		after, _ := json.Marshal(cs)
+		var obs sx.S = sx.L(sx.A("err"))
+		if ierr == nil {
+			js, e := jsonSexp(after)
+			if e != nil {
+				continue
+			}
+			obs = sx.L(sx.A("ok"), js)
+			if len(perm) == 0 && string(before) != string(after) {
+				oracleFail("C12", "empty-permutation", c, "the empty permutation changed the step")
+				continue
+			}
+			stat("C12", "step-ok")
+		} else {
+			stat("C12", "step-err")
+		}
+		fmt.Fprintf(out, "CASE\tC12step\t%s\t%s\t1\n", sx.String(c), sx.String(obs))
+	}
+}
+
 func init() {
 	props["C12"] = func(rng *sx.Rng, thorough bool) {
+		if thorough {
+			c12stepCases(rng, 20000)
+		} else {
+			c12stepCases(rng, 1500)
+		}
 		syms := []string{"{", "}", " ", "\t", "matrix", ".", "a", "-"}
 		maxLen := 6
 		if thorough {
